@@ -407,6 +407,15 @@ fn float_to_big(ctx: &mut Ctx) {
                 if r != Out::Ret(wantu.clone()) {
                     ctx.viol(format!("BigUint::from_f32 bits={:08x}", bits), "from_f32 wrong (negative values below -1 and NaN/inf must be None)", vec![format!("{:e}", f)], format!("{:?}", wantu.as_ref().map(|w| w.to_hex())), format!("{:?}", r));
                 }
+                ctx.compared(2);
+                let r = call(ctx, || ToBigUint::to_biguint(&f).map(|x| nat_of(&x)));
+                if r != Out::Ret(wantu.clone()) {
+                    ctx.viol(format!("f32::to_biguint bits={:08x}", bits), "ToBigUint for f32 is not the float truncated toward zero (None for NaN/inf and values <= -1)", vec![format!("{:e}", f)], format!("{:?}", wantu.as_ref().map(|w| w.to_hex())), format!("{:?}", r));
+                }
+                let r = call(ctx, || ToBigInt::to_bigint(&f).map(|x| int_of(&x)));
+                if r != Out::Ret(want.clone()) {
+                    ctx.viol(format!("f32::to_bigint bits={:08x}", bits), "ToBigInt for f32 is not the float truncated toward zero (None for NaN/inf)", vec![format!("{:e}", f)], format!("{:?}", want.as_ref().map(|w| w.to_hex())), format!("{:?}", r));
+                }
                 // round trip for integral finite values
                 if let Some(w) = &want {
                     if f.fract() == 0.0 && (lo & 0x3ff) == 0 {
@@ -473,6 +482,16 @@ fn float_to_big(ctx: &mut Ctx) {
                     let r = call(ctx, || BigUint::from_f64(f).map(|x| nat_of(&x)));
                     if r != Out::Ret(wantu.clone()) {
                         ctx.viol(format!("BigUint::from_f64 bits={:016x}", bits), "from_f64 wrong", vec![format!("{:e}", f)], format!("{:?}", wantu.as_ref().map(|w| w.to_hex())), format!("{:?}", r));
+                    }
+                    // the ToBigUint / ToBigInt impls for the float types are separate entry points
+                    ctx.compared(2);
+                    let r = call(ctx, || ToBigUint::to_biguint(&f).map(|x| nat_of(&x)));
+                    if r != Out::Ret(wantu.clone()) {
+                        ctx.viol(format!("f64::to_biguint bits={:016x}", bits), "ToBigUint for f64 is not the float truncated toward zero (None for NaN/inf and values <= -1)", vec![format!("{:e}", f)], format!("{:?}", wantu.as_ref().map(|w| w.to_hex())), format!("{:?}", r));
+                    }
+                    let r = call(ctx, || ToBigInt::to_bigint(&f).map(|x| int_of(&x)));
+                    if r != Out::Ret(want.clone()) {
+                        ctx.viol(format!("f64::to_bigint bits={:016x}", bits), "ToBigInt for f64 is not the float truncated toward zero (None for NaN/inf)", vec![format!("{:e}", f)], format!("{:?}", want.as_ref().map(|w| w.to_hex())), format!("{:?}", r));
                     }
                     if let Some(w) = &want {
                         if f.fract() == 0.0 {
